@@ -86,10 +86,10 @@ Proof.
             repeat match goal with Eq : queue _ = _ |- _ => rewrite Eq end;
             repeat match goal with Eq : _ = _ ++ _ |- _ => rewrite Eq in * end;
             simpl in *; cnt_norm; simpl in *; cnt_norm; lia).
-  all: try (intros x; repeat match goal with Eq : queue _ = _ |- _ => rewrite Eq end; apply Hc).
+  all: try (intros x; repeat match goal with Eq : queue _ = _ |- _ => rewrite Eq | Eq : reg _ = _ |- _ => rewrite Eq end; apply Hc).
   (* h_head *)
   all: try (unfold upd; destruct (Nat.eqb_spec (c_loop C) t) as [e|ne];
-            [ simpl; first [ exact I | eauto
+            [ simpl; first [ exact I | solve [eauto]
                            | match goal with E : thr _ _ = _ |- _ => rewrite e in Hh; rewrite E in Hh; exact Hh end ]
             | first [ assumption | apply head_ok_app; assumption
                     | exfalso; apply ne; symmetry; apply Hl; reflexivity ] ]; fail).
@@ -127,3 +127,130 @@ Proof.
   exact (proj2 H).
 Qed.
 
+
+(* ---- clear callbacks and the exit callback ---- *)
+Definition k_ok (s : sys) (p : pc) : Prop :=
+  match p with
+  | ARel PhClear id | SRel PhClear (Some id) =>
+    reg s = g_relclear s ++ id :: clr s /\ exitdr s = false /\ g_late s = []
+  | SRel PhClear None => False
+  | AXLock => reg s = g_relclear s /\ exitdr s = false /\ g_late s = []
+  | SRel PhExit _ | ARel PhExit _ => reg s = g_relclear s /\ exitdr s = true /\ g_late s = []
+  | AXUnlock => reg s = g_relclear s /\ exitdr s = true /\ g_late s = [] /\ queue s = []
+  | SRet | AFin | Done => reg s = g_relclear s /\ exitdr s = true /\ queue s = g_late s
+  | _ => g_relclear s = [] /\ exitdr s = false /\ g_late s = []
+  end.
+
+Definition KInv (C : config) (s : sys) : Prop :=
+  k_ok s (thr s (c_loop C)) /\
+  (returned s = true -> thr s (c_loop C) = AFin \/ thr s (c_loop C) = Done).
+
+Lemma init_kinv C : KInv C init.
+Proof. split; simpl; [auto|discriminate]. Qed.
+
+Lemma step_kinv C s t ch s' l :
+  BInv C s -> KInv C s -> step C s t ch = Some (s', l) -> KInv C s'.
+Proof.
+  intros B [Hk Hr] Hs. pose proof (b_loop _ _ B t) as Hl. pose proof (b_hold _ _ B t) as Hht.
+  pose proof (b_hold _ _ B (c_loop C)) as HhL.
+  step_inv Hs.
+  all: simpl in Hl, Hht.
+  all: repeat match goal with ph : phase |- _ => destruct ph end.
+  all: unfold KInv, set_pc; simpl; unfold upd.
+  all: destruct (Nat.eqb_spec (c_loop C) t) as [e|ne];
+    [ rewrite e in *; match goal with E : thr _ _ = _ |- _ => rewrite E in Hk, Hr; simpl in Hk end
+    | try (exfalso; apply ne; symmetry; apply Hl; reflexivity) ].
+  all: try exact (conj Hk Hr).
+  all: try (split; [ simpl in *; intuition (subst; auto; congruence)
+                   | first [ intros Hx; discriminate Hx
+                           | intros Hx; specialize (Hr Hx); destruct Hr; congruence
+                           | intros; auto ] ]; fail).
+  - exfalso. apply Nat.eqb_neq in Heqb1. congruence.
+  - destruct Hk as (K1 & K2 & K3). rewrite K2. split; [simpl; auto|].
+    intros Hx. specialize (Hr Hx). destruct Hr; congruence.
+  - (* an enqueue by another thread: not while the exit callback holds the mutex *)
+    assert (Hm : mtx s = Some t) by (apply Hht; reflexivity).
+    split; [|exact Hr].
+    destruct (thr s (c_loop C)) as [| | | | | | | | | | | | | | |ph [i|]|ph i| | | | | | |] eqn:EL;
+      simpl in *; try (destruct ph; simpl in * );
+      try (exfalso; assert (mtx s = Some (c_loop C)) by (apply HhL; reflexivity); congruence);
+      try (destruct Hk as (K1 & K2 & K3); rewrite K2; auto; fail);
+      try contradiction.
+    all: destruct Hk as (K1 & K2 & K3); rewrite K2; repeat split; auto; congruence.
+  - destruct Hk as (K1 & K2 & K3). simpl in Heql0. rewrite Heql0 in K1. split; [|intros Hx; specialize (Hr Hx); destruct Hr; congruence].
+    simpl. repeat split; auto. rewrite <- app_assoc. exact K1.
+  - destruct Hk as (K1 & K2 & K3). split; [|intros Hx; specialize (Hr Hx); destruct Hr; congruence].
+    simpl. rewrite K1. repeat split; auto.
+Qed.
+
+Theorem kinv_all C sched : KInv C (exec sys (step C) init sched).
+Proof.
+  assert (H : BInv C (exec sys (step C) init sched) /\ KInv C (exec sys (step C) init sched)).
+  { apply (inv_exec sys (step C) (fun s => BInv C s /\ KInv C s)).
+    - intros s t c s' l [B W] Hs. split; [eapply step_binv | eapply step_kinv]; eauto.
+    - split; [apply init_binv | apply init_kinv]. }
+  exact (proj2 H).
+Qed.
+
+
+Definition places (s : sys) (x : nat) : nat :=
+  cnt_of (queue s) x + cnt_of (reg s) x + cnt_of (g_relfail s) x + cnt_of (g_relexit s) x.
+
+Theorem handover_once_all C sched : c_fix_add C = true ->
+  let s := exec sys (step C) init sched in
+  (* an identity is handed over at most once *)
+  (forall x, cnt_of (g_enq s) x <= 1) /\
+  (* every context handed over is in exactly one of: still queued, registered by the wake
+     callback, released by the wake callback (registration failed), released by the exit callback *)
+  (forall x, In x (g_enq s) -> places s x = 1) /\
+  (forall x, ~ In x (g_enq s) -> places s x = 0) /\
+  g_leaked s = [] /\
+  (* once run() has returned, every registered context has been released by a clear callback,
+     each exactly once and in order, and what is still queued was enqueued after the exit
+     callback had taken the handle's mutex *)
+  (returned s = true -> g_relclear s = reg s /\ queue s = g_late s).
+Proof.
+  intros Hfix s. pose proof (hinv_all C sched Hfix) as H. fold s in H.
+  destruct (kinv_all C sched) as [Hk Hr]. fold s in Hk, Hr.
+  split; [exact (h_once _ _ H)|]. split; [|split; [|split; [exact (h_leak _ _ H)|]]].
+  - intros x Hx. pose proof (h_count _ _ H x) as Hc. pose proof (h_once _ _ H x) as Ho.
+    apply (count_occ_In Nat.eq_dec) in Hx. unfold places. lia.
+  - intros x Hx. pose proof (h_count _ _ H x) as Hc.
+    apply (count_occ_not_In Nat.eq_dec) in Hx. unfold places. lia.
+  - intros Hret. destruct (Hr Hret) as [E|E]; rewrite E in Hk; simpl in Hk;
+      destruct Hk as (K1 & K2 & K3); auto.
+Qed.
+
+(* hence, after run() has returned, every context handed over has been released exactly once -
+   by the wake callback, a clear callback or the exit callback - or is a late one still queued *)
+Corollary handover_released_once C sched : c_fix_add C = true ->
+  let s := exec sys (step C) init sched in
+  returned s = true ->
+  forall x, In x (g_enq s) ->
+  cnt_of (g_relfail s ++ g_relclear s ++ g_relexit s) x + cnt_of (g_late s) x = 1.
+Proof.
+  intros Hfix s Hret x Hx. destruct (handover_once_all C sched Hfix) as (_ & H1 & _ & _ & H2). fold s in H1, H2.
+  destruct (H2 Hret) as [E1 E2]. specialize (H1 x Hx). unfold places in H1.
+  rewrite !count_occ_app. rewrite E1, <- E2. lia.
+Qed.
+
+(* the code as first found: poll back-end with one context slot, two hand-overs.  The second
+   context cannot be registered; it is dequeued and announced all the same and ends up in none of
+   the places (neither registered nor released nor queued) although run() has returned. *)
+Definition cfg_add_failure (fa : bool) : config :=
+  {| c_be := BPoll; c_n := 2; c_loop := 1; c_cap := 1;
+     c_scr := fun t => match t with 0 => [OpH; OpH; OpX] | _ => [] end;
+     c_fix_exit := true; c_fix_add := fa |}.
+Definition sched_add_failure : list (nat * nat) := repeat (0, 0) 24 ++ repeat (1, 0) 30.
+
+Example handover_once_refuted :
+  let s := exec sys (step (cfg_add_failure false)) init sched_add_failure in
+  returned s = true /\ g_enq s = [0; 1] /\ reg s = [0] /\ g_leaked s = [1] /\ places s 1 = 0 /\
+  g_relclear s = [0] /\ queue s = [].
+Proof. vm_compute. repeat split; reflexivity. Qed.
+
+Example handover_once_witness_repaired :
+  let s := exec sys (step (cfg_add_failure true)) init sched_add_failure in
+  returned s = true /\ g_enq s = [0; 1] /\ reg s = [0] /\ g_relfail s = [1] /\ places s 1 = 1 /\
+  g_relclear s = [0] /\ queue s = [] /\ g_leaked s = [].
+Proof. vm_compute. repeat split; reflexivity. Qed.
